@@ -1,0 +1,18 @@
+//go:build verif
+
+package command
+
+import "os/exec"
+
+// VerifFactory is installed by the verification harness; nil means "real OS".
+// When it returns a non-nil value for a wrapper, every OS-facing call of that
+// wrapper is served by it instead of os/exec. Configuration (Env, Dir,
+// SysProcAttr, Args) still goes to the real exec.Cmd, which is handed over.
+var VerifFactory func(c *CmdWrapper, cmd *exec.Cmd) VerifFakeCmd
+
+func verifFake(c *CmdWrapper) VerifFakeCmd {
+	if VerifFactory == nil || c == nil || c.cmd == nil {
+		return nil
+	}
+	return VerifFactory(c, c.cmd)
+}
